@@ -6,7 +6,15 @@
     output space, every produced byte is a copy of a consumed input byte in order, and
     state-advancing calls made afterwards do not panic either."
 
-    Statements only; proofs are in proofs/C12_chunk.v, C12_parsers.v, C12_flow.v, C12_session.v.
+    Statements only; proofs are in proofs/C12_chunk.v, C12_parsers.v, C12_flow.v, C12_after_err.v,
+    C12_session.v.
+
+    Errors.  After an [Err] the caller still holds its flow.  For every call but one that flow is
+    the one it had.  The exception is a failed body read: the Rust [Dechunker] is mutated in place, so
+    the decoder inside the flow stays in the state it had reached at the failing transition.  The
+    model has that state as [recv_body_after_err f w cap] (Flow.v; validated against the crate), and
+    the "calls made afterwards" clauses below ([c12_after_error_state],
+    [c12_schedule_through_errors], [c12_then_proceed_body], [c12_session]) are stated from it.
     The flow-level theorems carry explicit preconditions (holder variant, duplicate-free close
     reasons, reader present and not in the transient Trailer state).  proofs/C12_inv.v (not imported
     here, so that this file does not depend on work in progress) derives each of them from the
@@ -23,7 +31,7 @@
     Every theorem quantifies over EVERY byte list [w] (no well-formedness), every capacity and every
     stop flag. *)
 From Hoot Require Import Base Chunk Body Httparse Parser Url Request Call Flow.
-From Hoot.proofs Require Import Reasons C05_stable C12_chunk C12_parsers C12_flow C12_session.
+From Hoot.proofs Require Import Reasons C05_stable C12_chunk C12_parsers C12_flow C12_after_err C12_session.
 Open Scope N_scope.
 
 (** [subseq a l] (defined in proofs/C12_chunk.v): [a] is obtained from [l] by deleting elements,
@@ -248,8 +256,59 @@ Theorem c12_body_schedule : forall ops f r,
   i_holder f = HRecvBody -> c_reader (i_call f) = Some r -> reader_ok r -> body_run_safe f ops.
 Proof. exact body_run_safe_all. Qed.
 
+(** The state a FAILED body read really leaves ([recv_body_after_err], see the header): it satisfies
+    the preconditions of [c12_recv_body_read], [c12_body_schedule], [c12_then_proceed_body] again
+    (holder RecvBody, reader present and between calls, reasons unchanged), so all of them apply to
+    it; only the reader of the call differs from [f], and that reader is chunked and waits for a size
+    line or for the CRLF behind a chunk -- the only two transitions of the decoder that can fail. *)
+Theorem c12_after_error_state : forall f r w cap e,
+  i_holder f = HRecvBody -> c_reader (i_call f) = Some r -> reader_ok r ->
+  recv_body_read f w cap = Err e ->
+  exists r',
+    recv_body_after_err f w cap = set_call f (set_reader (i_call f) (Some r')) /\
+    (r' = RChunked DSize \/ r' = RChunked DCrLf) /\
+    i_holder (recv_body_after_err f w cap) = HRecvBody /\
+    c_reader (i_call (recv_body_after_err f w cap)) = Some r' /\
+    reader_ok r' /\
+    i_reasons (recv_body_after_err f w cap) = i_reasons f.
+Proof. exact after_error_state. Qed.
+
+(** The decoder level of the same fact: a failed [read_chunked] from a between-calls state records
+    [DSize] or [DCrLf] (never the transient Trailer state), and a reader keeps its kind. *)
+Theorem c12_after_error_decoder : forall d w cap stop e,
+  d <> DTrailer -> read_chunked d w cap stop = Err e ->
+  reader_after_err (RChunked d) w cap stop = RChunked DSize \/
+  reader_after_err (RChunked d) w cap stop = RChunked DCrLf.
+Proof. exact after_error_decoder. Qed.
+
+Theorem c12_after_error_reader : forall r w cap stop,
+  reader_ok r ->
+  reader_ok (reader_after_err r w cap stop) /\ reader_mode (reader_after_err r w cap stop) = reader_mode r.
+Proof. exact reader_after_err_ok12. Qed.
+
+(** Any schedule that carries on THROUGH errors: any number of reads with arbitrary (window,
+    capacity); after each failing read the state continues as [recv_body_after_err] (exactly what
+    [Script.do_read] does, and what the Rust caller holds).  No call panics and every successful call
+    satisfies the count bounds: [reads_through_errors f sched] unfolds to
+      match recv_body_read f w cap with
+      | Panic _ => False
+      | Err _ => reads_through_errors (recv_body_after_err f w cap) rest
+      | Ok (f', i, out) => i <= len w /\ len out <= cap /\ subseq out (take i w) /\
+                           reads_through_errors f' rest
+      end. *)
+Theorem c12_schedule_through_errors : forall sched f r,
+  i_holder f = HRecvBody -> c_reader (i_call f) = Some r -> reader_ok r -> reads_through_errors f sched.
+Proof. exact reads_through_errors_all. Qed.
+
+(** The same with changes of the stop-on-chunk-boundary flag interleaved ([body_run_through_errors]
+    is [body_run_safe] with the [Err] case continuing from [recv_body_after_err]). *)
+Theorem c12_body_schedule_through_errors : forall ops f r,
+  i_holder f = HRecvBody -> c_reader (i_call f) = Some r -> reader_ok r -> body_run_through_errors f ops.
+Proof. exact body_run_through_errors_all. Qed.
+
 (** State-advancing calls after a server-facing call, whatever that call returned (for an [Err] the
-    caller still holds the flow it had; [try_read_100] hands the flow back in every case).
+    caller still holds its flow: the one it had, except after a failed body read, where it is
+    [recv_body_after_err]; [try_read_100] hands the flow back in every case).
     Explicit preconditions here; proofs/C12_inv.v derives them from the flow invariant of C09. *)
 Theorem c12_then_proceed_100 : forall f w,
   NoDup (i_reasons f) -> i_holder f = HWithBody -> c_analyzed (i_call f) = true ->
@@ -273,16 +332,21 @@ Theorem c12_then_proceed_response : forall f w,
   end.
 Proof. exact then_proceed_response. Qed.
 
+(** (Adapted when the model was made faithful to the in-place mutation of the decoder: after an
+    [Err] the flow [proceed] is called on is [recv_body_after_err f w cap], not [f].) *)
 Theorem c12_then_proceed_body : forall f r w cap,
   i_holder f = HRecvBody -> c_reader (i_call f) = Some r -> reader_ok r ->
-  let f1 := match recv_body_read f w cap with Ok (f', _, _) => f' | _ => f end in
+  let f1 := match recv_body_read f w cap with
+            | Ok (f', _, _) => f'
+            | _ => recv_body_after_err f w cap
+            end in
   match recv_body_proceed f1 with
   | Panic _ => False
   | Err _ => False
   | Ok None => True
   | Ok (Some (t, f2)) => f2 = f1 /\ ((t = TRedirect /\ is_redirect f1 = true) \/ t = TCleanup)
   end.
-Proof. exact then_proceed_body. Qed.
+Proof. exact then_proceed_body_real. Qed.
 
 (** Following a redirect: no panic provided a status was recorded (it is, in Redirect), the base URI
     has a scheme and the request has not already been moved out by an earlier [as_new_flow] (calling
@@ -298,7 +362,9 @@ Proof. exact as_new_flow_safe. Qed.
 
 (** Any sequence of server-facing calls and [proceed]s from Await100, RecvResponse or RecvBody, with
     arbitrary bytes each time: no call panics, every successful call satisfies the bounds, and this
-    remains true after calls that returned an error.  [session_safe] (proofs/C12_session.v) unfolds
+    remains true after calls that returned an error (after a failed body read the session continues
+    from [recv_body_after_err f w cap], the state the failed call really leaves).  [session_safe]
+    (proofs/C12_session.v) unfolds
     to exactly that; operations the typestate does not offer are skipped; the only excluded situation
     is the misuse of [try_read_100] characterised above ([c12_try100_misuse], unreachable under
     [c12_discipline]).  [Srv t f] is the per-state precondition:
@@ -418,6 +484,34 @@ Proof.
   apply (body_run_safe_all _ _ (RChunked DSize)); [reflexivity|reflexivity|exact reader_ok_start].
 Qed.
 
+(** After a failed read.  Garbage instead of the CRLF behind a 3-byte chunk: the call fails, the
+    three data bytes it had already decoded are lost to the caller (the error carries no counts), and
+    the decoder stays in CrLf -- so the next window is read from THERE (a CRLF, then a chunk "hi"),
+    whereas the flow as it was before the failed call would take the same window for a size line.
+    A bad size line fails in Size and stays there.  The schedule runs through both errors. *)
+Example c12_nonvacuous_after_error :
+  let b0 := demo_flow HRecvBody PRecvBody (Some (RChunked DSize)) in
+  let bad := [51; 13; 10] ++ s2b "abcXX" ++ [13; 10] in
+  let next := [13; 10; 50; 13; 10] ++ s2b "hi" ++ [13; 10] in
+  let huge := s2b "FFFFFFFFFFFFFFFFF" ++ [13; 10] in
+  recv_body_read b0 bad 10 = Err ChunkExpectedCrLf /\
+  c_reader (i_call (recv_body_after_err b0 bad 10)) = Some (RChunked DCrLf) /\
+  (exists f', recv_body_read (recv_body_after_err b0 bad 10) next 10 = Ok (f', 9, s2b "hi") /\
+              c_reader (i_call f') = Some (RChunked DSize)) /\
+  recv_body_read b0 next 10 = Err ChunkLenNotANumber /\
+  recv_body_read b0 huge 10 = Err ChunkLenNotANumber /\
+  c_reader (i_call (recv_body_after_err b0 huge 10)) = Some (RChunked DSize) /\
+  reads_through_errors b0 [(bad, 10); (next, 10); (huge, 3); (next, 1)] /\
+  body_run_through_errors b0 [BRead bad 10; BStop true; BRead next 10; BRead huge 0].
+Proof.
+  cbv zeta. split; [vm_compute; reflexivity|]. split; [vm_compute; reflexivity|].
+  split; [eexists; vm_compute; split; reflexivity|].
+  split; [vm_compute; reflexivity|]. split; [vm_compute; reflexivity|]. split; [vm_compute; reflexivity|].
+  split.
+  - apply (reads_through_errors_all _ _ (RChunked DSize)); [reflexivity|reflexivity|exact reader_ok_start].
+  - apply (body_run_through_errors_all _ _ (RChunked DSize)); [reflexivity|reflexivity|exact reader_ok_start].
+Qed.
+
 (** A whole hostile exchange: 100-continue wait refused by a 403 that arrives in pieces, the head
     re-read in RecvResponse (chunked, Connection: close), body reads with a bad chunk, proceeds
     everywhere, and operations the state does not offer. *)
@@ -470,6 +564,12 @@ Print Assumptions c12_discipline.
 Print Assumptions c12_recv_try_response.
 Print Assumptions c12_recv_body_read.
 Print Assumptions c12_body_schedule.
+Print Assumptions c12_after_error_state.
+Print Assumptions c12_after_error_decoder.
+Print Assumptions c12_after_error_reader.
+Print Assumptions c12_schedule_through_errors.
+Print Assumptions c12_body_schedule_through_errors.
+Print Assumptions c12_nonvacuous_after_error.
 Print Assumptions c12_then_proceed_100.
 Print Assumptions c12_then_proceed_response.
 Print Assumptions c12_then_proceed_body.
